@@ -82,8 +82,10 @@ def plan(tier, seed):
     nw4 = 3 if tier == 'quick' else 8
     for i in range(nw4):
         shards.append({'name': 'w4_%d' % i, 'kind': 'w4', 'combos': w4[i::nw4], 'seed': seed * 1000 + 50 + i})
+    shards.append({'name': 'ambig', 'kind': 'ambig', 'n': 60 if tier == 'quick' else 800, 'seed': seed * 1000 + 8})
     shards.append({'name': 'huge', 'kind': 'huge', 'sizes': [300, 33000, 66000] if tier == 'quick' else
-                   [260, 300, 32770, 40000, 65540, 70000, 140000]})
+                   [260, 300, 32770, 40000, 65540, 70000, 140000],
+                   'large': [1100, 2300] if tier == 'quick' else [600, 1100, 2300, 4100, 9000]})
     shards.append({'name': 'formula', 'kind': 'formula', 'nmax': 250 if tier == 'quick' else 1000,
                    'seed': seed * 1000 + 3})
     return shards
@@ -129,12 +131,35 @@ def materialise(case):
         return {'api': T.MEASURE_JOIN[case['measure']], 'ltable': L, 'rtable': R, 'l_key': 'id',
                 'r_key': 'id', 'l_attr': 's', 'r_attr': 's', 'tok': {'kind': 'ws', 'return_set': True},
                 'threshold': case['threshold'], 'comp_op': case.get('comp_op', '>='), 'n_jobs': 1}
-    if g == 'huge':
-        L, R = gen.huge_tables(case['n'])
+    if g == 'large':
+        L, R, planted = gen.large_planted_tables(random.Random(case['seed']), case['n'], 'ws')
         return {'api': T.MEASURE_JOIN[case['measure']], 'ltable': L, 'rtable': R, 'l_key': 'id',
                 'r_key': 'id', 'l_attr': 's', 'r_attr': 's', 'tok': {'kind': 'ws', 'return_set': True},
                 'threshold': case['threshold'], 'comp_op': case.get('comp_op', '>='),
                 'n_jobs': case.get('n_jobs', 1)}
+    if g == 'huge':
+        if case.get('tail'):
+            L, R = gen.huge_tail_tables(case['n'], case['tail'])
+        else:
+            L, R = gen.huge_tables(case['n'])
+        return {'api': T.MEASURE_JOIN[case['measure']], 'ltable': L, 'rtable': R, 'l_key': 'id',
+                'r_key': 'id', 'l_attr': 's', 'r_attr': 's', 'tok': {'kind': 'ws', 'return_set': True},
+                'threshold': case['threshold'], 'comp_op': case.get('comp_op', '>='),
+                'n_jobs': case.get('n_jobs', 1)}
+    if g == 'ambig':
+        rng = random.Random(case['seed'])
+        L, R, tok = gen.ambiguous_tables(rng)
+        api = rng.choice(['jaccard_join', 'cosine_join', 'dice_join', 'overlap_coefficient_join', 'overlap_join'])
+        return {'api': api, 'ltable': L, 'rtable': R, 'l_key': 'lid', 'r_key': 'rid', 'l_attr': 'lattr',
+                'r_attr': 'rattr', 'tok': tok, 'n_jobs': rng.choice([1, 2]),
+                'threshold': rng.choice([1, 2, 3]) if api == 'overlap_join' else rng.choice([1.0, 1.0, 1, 0.9999, 0.5]),
+                'comp_op': rng.choice(['>=', '>=', '=']), 'out_sim_score': rng.random() < 0.7}
+    if g == 'w5':
+        L, R, groups = gen.rare_shared_tables(case['N'])
+        return {'api': T.MEASURE_JOIN[case['measure']], 'ltable': L, 'rtable': R, 'l_key': 'id',
+                'r_key': 'id', 'l_attr': 's', 'r_attr': 's', 'tok': {'kind': 'ws', 'return_set': True},
+                'threshold': case['threshold'], 'comp_op': case.get('comp_op', '>='),
+                'out_sim_score': case.get('out_sim_score', True), 'n_jobs': case.get('n_jobs', 1)}
     if g == 'w4':
         rng = random.Random(case['seed'])
         L, R, groups = gen.exact_score_tables(case['measure'], case['threshold'], rng)
@@ -144,7 +169,7 @@ def materialise(case):
                 'n_jobs': case.get('n_jobs', 1)}
     if g == 'w3':
         rng = random.Random(case['seed'])
-        return gen.random_join_call(rng)
+        return gen.random_join_call(rng, collide=True)
     if g == 'explicit':
         return case['call']
     raise ValueError(g)
@@ -268,8 +293,32 @@ def run_shard(shard, rec):
                 st = run_case(case, rec, ssj)
                 rec.case(sig=('huge', n, m, t), nontrivial=bool(st and st.get('required')))
                 rec.count('huge_cases')
+        # every common token beyond position 2**16 of the long record's ordered token list
+        for (n_own, n_sh, m, t) in [(66000, 6000, 'JACCARD', 0.08), (70000, 9000, 'COSINE', 0.3),
+                                    (66000, 6000, 'DICE', 0.15)][:1 if rec.tier == 'quick' else 3]:
+            case = {'gen': 'huge', 'n': n_own, 'tail': n_sh, 'measure': m, 'threshold': t}
+            st = run_case(case, rec, ssj)
+            rec.case(sig=('huge_tail', n_own, n_sh, m, t), nontrivial=bool(st and st.get('required')))
+            rec.count('huge_cases')
+        # tables beyond 1000 / 2048 rows (planted pairs among filler rows)
+        for x, n in enumerate(shard.get('large', [])):
+            for y, (m, t) in enumerate([('JACCARD', 0.3), ('COSINE', 0.6), ('DICE', 0.45),
+                                        ('OVERLAP_COEFFICIENT', 0.5), ('OVERLAP', 3)]):
+                if rec.tier == 'quick' and (x + y) % 2:
+                    continue
+                case = {'gen': 'large', 'n': n, 'measure': m, 'threshold': t, 'seed': 77 + 13 * x + y,
+                        'n_jobs': 1 if (x + y) % 3 else 2}
+                st = run_case(case, rec, ssj)
+                rec.case(sig=('large', n, m, t), nontrivial=bool(st and st.get('required')))
+                rec.count('large_table_cases')
         rec.sample({'workload': 'HUGE', 'sizes': shard['sizes'], 'note': 'one pair of records with n '
                     'tokens sharing all but 3, beyond 2**8 / 2**15 / 2**16 tokens'}, limit=1)
+    elif kind == 'ambig':
+        for i in range(shard['n']):
+            case = {'gen': 'ambig', 'seed': shard['seed'] * 100000 + i}
+            st = run_case(case, rec, ssj)
+            rec.case(sig=('ambig', case['seed']), nontrivial=bool(st and st.get('required')))
+            rec.count('ambiguous_token_set_cases')
     elif kind == 'w4':
         for i, (m, t, op) in enumerate(shard['combos']):
             case = {'gen': 'w4', 'measure': m, 'threshold': t, 'comp_op': op,
